@@ -469,10 +469,10 @@ def check_teardown(P, ctx):
     ctx.floor(rule, 4)
 
 
-def check_registered_before_use(P, ctx):
+def check_registered_before_use(P, ctx, rule='C06.registered-before-use'):
     """a managed object is registered with the collector before any user code (constructor, assign) runs on it, so
-    that an exception raised there cannot leave it unregistered (never finalised, not even at teardown)"""
-    rule = 'C06.registered-before-use'
+    that an exception raised there cannot leave it unregistered (never finalised, not even at teardown) — and so that a
+    collection triggered *by* the constructor sees it (as a root, or from the stack) and keeps what it already holds"""
     want = {'new_with': ('construct_with', 'alloc'), 'new_root_with': ('construct_with', 'alloc_root'), 'new_raw_with': ('construct_with', 'alloc_raw'), 'copy': ('assign', 'alloc')}
     for fname, (user, allocator) in want.items():
         fn = P.fn(fname)
